@@ -160,6 +160,6 @@ def queries(tier):
     return qs
 
 MANIFEST = {
-    "text": "Symbolic single-fault injection on the real code: for each encoded entry point the index of the failing allocation is a solver variable covering every allocation of the call; the call must report NNG_ENOMEM (or its documented best-effort loss), dereference no NULL pointer, re-enter no held lock, leak nothing and leave the object usable. Also: the private copy of a shared message in the inproc hand-off, and the id map after a failed grow (later sets terminate and succeed: the table always keeps a free slot).",
-    "note": "Only the listed entry points; one fault per call; platform-layer allocations outside.",
+    "text": "Symbolic single-fault injection on the real code: for each encoded entry point the index of the failing allocation is a solver variable covering every allocation of the call; the call must report NNG_ENOMEM (or its documented best-effort loss), dereference no NULL pointer, re-enter no held lock, leak nothing and leave the object usable. Also: the private copy of a shared message in the inproc hand-off, and the id map after a failed grow (later sets terminate and succeed: the table always keeps a free slot). Fourth session: an allocation-fault PASS through the protocol skeletons (events FA/FM/FI arm the k-th allocator request / message duplication / id-table insertion; a call that reports NNG_ENOMEM must have changed nothing and the functional checks then apply again in full; safety checks - locks, exactly-once completion, leaks - never relax): SUB subscribe / RECVBUF / per-context copy, PAIR and PUSH buffer resizes, REQ and SURVEYOR id allocation; per-connection protocol state that cannot be set up (xrep/xrespond/xsurvey/rep/respond/pair1poly pipe_init / pipe_start followed by the core's pipe_close, pipe_stop, pipe_fini); transport pipes the core could not complete (tcp/ipc/sockfd/udp/inproc); dialer / listener creation with each step failing; socket creation (protocol sock_fini never before sock_init); the websocket custom-header list; the HTTP error-page table and a half-made HTTP server connection.",
+    "note": "Only the listed entry points; one fault per call; platform-layer allocations outside. Findings F27-F30, F32-F34 (crashes / dead-lock after ONE failed allocation) were found by these queries and repaired in /repo; tools/allocfail_sweep.c (a discovery aid that runs the built library under the nng_init_params allocator hooks, not a check) showed where to aim them.",
 }
